@@ -76,12 +76,53 @@ func coreCases(prop, tier string) []coreCase {
 // window that makes the leader lookup fail when the retried message and the
 // chaser come back, recovery, and a second retry cycle on the same partition.
 type directedCase struct {
+	// deep != nil: the "deep retry" family instead of the leaderless-window family
+	deep        *deepCase
 	noLeaderFor int
 	steerK      int
 	second      int // position of the second retriable fault in the word
 	retry       int
 	idem        bool
 	flush       int
+}
+
+// deepCase: the same partition is refused several times in a row while further
+// messages keep arriving, so that retry level 2 and beyond is reached with
+// messages of lower levels (already numbered, when idempotent) still on their
+// way back; responses can be held until k more messages were buffered.
+type deepCase struct {
+	word    []int
+	holdK   [2]int // response-added steering for the first and second response (0 = none)
+	flush   int
+	pauseUs int
+}
+
+func deepCases(prop, tier string) []directedCase {
+	var out []directedCase
+	R, O := fRetryNoAppend, fOk
+	words := [][]int{{R, R}, {O, R, R}, {R, R, R}, {R, O, R, R}}
+	holds := [][2]int{{0, 0}, {1, 1}, {2, 1}, {1, 2}}
+	for _, w := range words {
+		for _, h := range holds {
+			for _, fl := range []int{0, 2} {
+				for _, pause := range []int{300, 2500} {
+					if tier != "thorough" && pause == 2500 && h != [2]int{0, 0} {
+						continue
+					}
+					out = append(out, directedCase{deep: &deepCase{word: w, holdK: h, flush: fl, pauseUs: pause}, retry: 4, idem: prop == "C05"})
+				}
+			}
+		}
+	}
+	// refusals separated by an accepted request, input arriving at several paces
+	for _, w := range [][]int{{R, O, R, R}, {R, O, R, R, R}, {R, R, O, R, R}, {O, R, O, R, R}, {R, O, R, O, R, R}} {
+		for _, fl := range []int{0, 2, 3} {
+			for _, pause := range []int{100, 300, 1000} {
+				out = append(out, directedCase{deep: &deepCase{word: w, flush: fl, pauseUs: pause}, retry: 5, idem: prop == "C05"})
+			}
+		}
+	}
+	return out
 }
 
 func directedCases(prop, tier string) []directedCase {
@@ -91,6 +132,7 @@ func directedCases(prop, tier string) []directedCase {
 	default:
 		return nil
 	}
+	out = append(out, deepCases(prop, tier)...)
 	// one failing leader lookup costs 2 x (Metadata.Retry.Max+1) = 8 metadata requests (RefreshMetadata, then
 	// Leader's own refresh); the third consecutive failure opens the partition's circuit breaker for 10 s
 	durs := []int{9, 17, 20, 23}
@@ -103,9 +145,9 @@ func directedCases(prop, tier string) []directedCase {
 				for _, retry := range []int{1, 2} {
 					for _, flush := range []int{0, 2} {
 						idem := prop == "C05"
-						out = append(out, directedCase{d, k, second, retry, idem, flush})
+						out = append(out, directedCase{nil, d, k, second, retry, idem, flush})
 						if prop == "C01" && retry == 2 && flush == 0 {
-							out = append(out, directedCase{d, k, second, retry, true, flush})
+							out = append(out, directedCase{nil, d, k, second, retry, true, flush})
 						}
 					}
 				}
@@ -120,6 +162,28 @@ func directedScenario(prop string, c directedCase, rng *rand.Rand) *prodScenario
 		Acks: sarama.WaitForLocal, Partitioner: "manual", Submitters: 1, CloseMode: "asyncclose", ChannelBuf: -1, NoLeaderFor: c.noLeaderFor}
 	if c.idem {
 		sc.Acks = sarama.WaitForAll
+	}
+	if c.deep != nil {
+		sc.NoLeaderFor = 0
+		if c.deep.flush > 0 {
+			sc.FlushMessages, sc.FlushFreq = c.deep.flush, 2*time.Millisecond
+		}
+		sc.Faults = append([]int(nil), c.deep.word...)
+		for _, f := range sc.Faults {
+			sc.FaultCodes = append(sc.FaultCodes, pickCode(f, rng))
+		}
+		for i, k := range c.deep.holdK {
+			if k > 0 {
+				sc.Steer = append(sc.Steer, steerSpec{Kind: "response-added", Nth: i + 1, K: k})
+			}
+		}
+		for i := 0; i < 12; i++ {
+			sc.Msgs = append(sc.Msgs, &msgSpec{ID: i, Topic: "t", Part: 0, N: i, Value: valueFor(i, 3, rng), KeyNil: true, PauseUs: c.deep.pauseUs})
+		}
+		if prop == "C18" {
+			sc.Interceptors = []icSpec{{"count"}, {"mutate"}}
+		}
+		return sc
 	}
 	if c.flush > 0 {
 		sc.FlushMessages, sc.FlushFreq = c.flush, 2*time.Millisecond
